@@ -240,7 +240,7 @@ def rename_history_cases(rng, k):
 
 
 
-def single_sensor_cases(values=("45000",), names=("P", "A", "R")):
+def single_sensor_cases(values=("45000",), names=("P", "A", "R"), full=False):
     out = []
     st = {"P": None, "A": ["A"], "U": ["U"], "R": ["U", "EIO"]}
     for v in values:
@@ -250,6 +250,8 @@ def single_sensor_cases(values=("45000",), names=("P", "A", "R")):
             for m in "PAUR":
                 for c in "PAUR":
                     for l in "PAUR":
+                        if not full and i != "P" and (m, c, l) != ("P", "P", "P"):
+                            continue        # quick tier: a sensor without reading is skipped whatever the rest is
                         for nm in names:
                             for fahr in (False, True):
                                 num = lambda x, d: ["P", "N", neg, d] if x == "P" else st[x]
@@ -652,7 +654,7 @@ def gen_cases(rng, tier):
         cases += single_sensor_cases()
         cases += single_fan_cases()
     elif tier == "thorough":
-        cases += single_sensor_cases(values=("45000", "0", "-5000"), names=("P", "A", "U", "R"))
+        cases += single_sensor_cases(values=("45000", "0", "-5000"), names=("P", "A", "U", "R"), full=True)
         cases += single_fan_cases()
         cases += battery_subset_cases()
     cases += [gen_temps(rng) for _ in range(220 * n)]
